@@ -95,6 +95,11 @@ type cacheTransaction struct {
 	// entries with different keys from parallel threads.
 	modifiedLock sync.Mutex
 	modified     map[string]struct{}
+
+	// finished is set once Commit or Rollback has been called. From then on
+	// reads must not be answered from this transaction's private cache: the
+	// wrapped transaction refuses further use and so must we.
+	finished atomic.Bool
 }
 
 // Verify Cache satisfies the correct interfaces
@@ -286,6 +291,7 @@ func (c *transactionalCache) BeginReadOnlyTx(ctx context.Context) (Transaction, 
 		c,
 		sync.Mutex{},
 		make(map[string]struct{}),
+		atomic.Bool{},
 	}, nil
 }
 
@@ -302,7 +308,20 @@ func (c *transactionalCache) BeginTx(ctx context.Context) (Transaction, error) {
 		c,
 		sync.Mutex{},
 		make(map[string]struct{}),
+		atomic.Bool{},
 	}, nil
+}
+
+// Get reads through the transaction's private cache while the transaction is
+// open. Once it has been committed or rolled back the private cache is no
+// longer consulted and the wrapped transaction answers (with
+// ErrTransactionAlreadyCommitted), exactly as it does for Put, Delete and List.
+func (c *cacheTransaction) Get(ctx context.Context, key string) (*Entry, error) {
+	if c.finished.Load() {
+		return c.backend.Get(ctx, key)
+	}
+
+	return c.cache.Get(ctx, key)
 }
 
 func (c *cacheTransaction) Put(ctx context.Context, entry *Entry) error {
@@ -360,6 +379,9 @@ func (c *cacheTransaction) Delete(ctx context.Context, key string) error {
 }
 
 func (c *cacheTransaction) Commit(ctx context.Context) error {
+	// The wrapped transaction is finished whatever the verdict below.
+	c.finished.Store(true)
+
 	if err := c.cache.backend.(Transaction).Commit(ctx); err != nil {
 		return err
 	}
@@ -387,6 +409,8 @@ func (c *cacheTransaction) Commit(ctx context.Context) error {
 }
 
 func (c *cacheTransaction) Rollback(ctx context.Context) error {
+	c.finished.Store(true)
+
 	if err := c.cache.backend.(Transaction).Rollback(ctx); err != nil {
 		return err
 	}
